@@ -4,7 +4,9 @@ use crate::{
         submessages::{data::DataSubmessage, data_frag::DataFragSubmessage},
         types::Time,
     },
-    transport::types::{CacheChange, Guid, GuidPrefix, ReliabilityKind, WriterProxy},
+    transport::types::{
+        CacheChange, ENTITYID_UNKNOWN, EntityId, Guid, GuidPrefix, ReliabilityKind, WriterProxy,
+    },
 };
 use alloc::vec::Vec;
 
@@ -63,12 +65,23 @@ impl RtpsStatefulReader {
         self.reliability
     }
 
+    /// A submessage is for this reader if it is addressed to it or to no reader in particular.
+    /// A writer sends to each matched reader what is relevant for that reader (e.g. history only
+    /// to TRANSIENT_LOCAL readers, GAPs for what a late VOLATILE reader must not get), so a
+    /// submessage addressed to another reader of the same participant must not be applied here.
+    pub fn is_addressed(&self, reader_id: EntityId) -> bool {
+        reader_id == ENTITYID_UNKNOWN || reader_id == self.guid.entity_id()
+    }
+
     pub fn on_data_submessage(
         &mut self,
         data_submessage: &DataSubmessage,
         source_guid_prefix: GuidPrefix,
         source_timestamp: Option<Time>,
     ) {
+        if !self.is_addressed(data_submessage.reader_id()) {
+            return;
+        }
         let writer_guid = Guid::new(source_guid_prefix, data_submessage.writer_id());
         let sequence_number = data_submessage.writer_sn();
         if let Some(writer_proxy) = self
@@ -118,6 +131,9 @@ impl RtpsStatefulReader {
         source_guid_prefix: GuidPrefix,
         source_timestamp: Option<Time>,
     ) {
+        if !self.is_addressed(data_frag_submessage.reader_id()) {
+            return;
+        }
         let writer_guid = Guid::new(source_guid_prefix, data_frag_submessage.writer_id());
         let sequence_number = data_frag_submessage.writer_sn();
         if let Some(writer_proxy) = self
